@@ -47,7 +47,8 @@ PROBES = ["reentrant_close_during_render", "render_fault_in_first_animation_fram
           "finalized_by_garbage_collection", "stopiteration_from_definite_source",
           "double_close", "double_finalize", "interrupted_draw_write", "iterator_exhausted",
           "setting_changed_mid_iteration", "keyboardinterrupt_in_render", "finalizer_raised",
-          "iterator_construction_rejected", "render_class_inheriting_its_data_namespace"]
+          "iterator_construction_rejected", "render_class_inheriting_its_data_namespace",
+          "history_inside_an_exception_handler", "render_class_with_chaining_finalizer"]
 COMPONENTS = {
     "real": ["RenderData.finalize/__del__", "Renderable._init_render_/draw/render/__str__/"
              "__iter__/_animate_", "RenderIterator (__init__, _from_render_data_, __next__, "
@@ -71,6 +72,19 @@ class Live:
 
 
 def run(ch, ctx, fault=None):
+    if ch.bool("inside_exception_handler", 0.2):
+        # the application does all of this while it is handling some exception of its own
+        # (an error page rendered from an `except` block): nothing about who finalizes what
+        # depends on that
+        ctx.probe("history_inside_an_exception_handler")
+        try:
+            raise LookupError("the application is handling something else")
+        except LookupError:
+            return _run(ch, ctx, fault)
+    return _run(ch, ctx, fault)
+
+
+def _run(ch, ctx, fault=None):
     rows, cols = ch.int("rows", 2, 10), ch.int("cols", 4, 20)
     w = World(ctx, ch, fault, rows=rows, cols=cols, reuse=True)
     k, vt, out = w.k, w.vt, w.out
@@ -97,12 +111,23 @@ def run(ch, ctx, fault=None):
         class Derived(SimR):
             """inherits data namespace and finalizer; declares none of its own"""
 
+        class Styled(SimR):
+            """a render class on top of another one, with a finalizer of its own that chains
+            up as documented"""
+
+            @classmethod
+            def _finalize_render_data_(cls, render_data):
+                super()._finalize_render_data_(render_data)
+
         rends = []
         for j in range(ch.int("n_rend", 1, 3)):
             SimR_ = SimR
-            if ch.bool("derived_class", 0.3):
+            if ch.bool("derived_class", 0.4):
                 SimR_ = Derived
                 ctx.probe("render_class_inheriting_its_data_namespace")
+                if ch.bool("own_finalizer", 0.5):
+                    SimR_ = Styled
+                    ctx.probe("render_class_with_chaining_finalizer")
             kind = ch.pick("rkind", ("still", "anim", "anim", "indef"))
             size = ti.geometry.Size(ch.int("w", 1, 3), ch.int("h", 1, 2))
             if kind == "still":
